@@ -28,7 +28,7 @@ META = dict(
          "track of length 0..M over 8 positions (incl. each coordinate missing) x every gap sequence over {1,3600}s "
          "x every (suspect,fail) pair drawn from {0.9v, v, 1.1v : v a hop speed of the track} + every unequal "
          "length triple in {0..3}^3. Each state = one real call judged per point by the scalar reference "
-         "Scale: 12345-point rate-of-change series, speed tracks of 1297 and 2600 fixes with thresholds equal to observed speeds. (geographiclib per pair with explicit lat/lon). non-trivial = reference demands SUSPECT/FAIL or ValueError",
+         "(geographiclib per pair with explicit lat/lon). Scale: 12345-point rate-of-change series, speed tracks of 1297 and 2600 fixes with thresholds equal to observed speeds. non-trivial = reference demands SUSPECT/FAIL or ValueError",
     bounds={"quick": {"roc_len": 4, "track_len": 3}, "thorough": {"roc_len": 5, "track_len": 4}},
     not_judged=["missing points and points whose own/previous position is incomplete (C02)"],
     assumptions=["IEEE division identical in reference and implementation; geographiclib is the distance oracle"],
